@@ -1750,4 +1750,230 @@ Proof.
   unfold thread_prog. snx. apply (T_run_ops t fuel Hlt os Hok); [rewrite Hser; split; reflexivity|exact Hst].
 Qed.
 
+
+(** ** the initial state *)
+Definition pub0 (p : ptr) : bool := existsb (fun kh => Nat.eqb p (pre_node (fst kh))) nodes.
+Definition L0 : list ptr := map (fun kh => pre_node (fst kh)) nodes.
+Definition views0 (u : nat) : lview := mkLV [] [] None (if Nat.eqb u 63 then 8%nat else 0%nat) (@Idle SetSpec).
+Definition prefill_atr (ns : list (nat * nat)) : list (aev SetSpec) :=
+  flat_map (fun kh => [@AInv SetSpec 90%nat (SInsert (Z.of_nat (fst kh))); @ALin SetSpec 90%nat; @ARes SetSpec 90%nat (RBool true)]) ns.
+Definition aux0 : aux := mkAux pub0 L0 views0 (prefill_atr nodes).
+
+Lemma pub0_spec p : pub0 p = true <-> exists k h, In (k, h) nodes /\ p = pre_node k.
+Proof.
+  unfold pub0. rewrite existsb_exists. split.
+  - intros ([k h] & Hin & E). apply Nat.eqb_eq in E. exists k, h. auto.
+  - intros (k & h & Hin & ->). exists (k, h). split; [exact Hin|apply Nat.eqb_refl].
+Qed.
+
+Lemma link_all_cell ns : forall p l,
+  snd (nxt (link_all ns g_empty) p l) = false /\
+  (fst (nxt (link_all ns g_empty) p l) = null \/ exists k h, In (k, h) ns /\ fst (nxt (link_all ns g_empty) p l) = pre_node k).
+Proof.
+  induction ns as [|[k h] r IH]; intros p l; cbn [link_all nxt g_empty]; [split; [reflexivity|now left]|].
+  destruct (Nat.eqb p (pre_node k)).
+  - destruct (Nat.ltb l h); cbn [fst snd]; (split; [reflexivity|]); [|now left].
+    destruct (next_at_in l r) as [E|(k' & h' & Hin & E)]; [now left|right]. exists k', h'. split; [now right|exact E].
+  - destruct (IH p l) as [I1 [I2|(k' & h' & Hin & E)]]; (split; [exact I1|]); [now left|right]. exists k', h'. split; [now right|exact E].
+Qed.
+
+Lemma init_cell p l :
+  snd (nxt (init nodes) p l) = false /\
+  (fst (nxt (init nodes) p l) = null \/ pub0 (fst (nxt (init nodes) p l)) = true).
+Proof.
+  unfold init. cbn [nxt]. destruct (Nat.eqb p head).
+  - cbn [fst snd]. split; [reflexivity|]. destruct (next_at_in l nodes) as [E|(k' & h' & Hin & E)]; [now left|right].
+    apply pub0_spec. eauto.
+  - destruct (link_all_cell nodes p l) as [I1 [I2|(k' & h' & Hin & E)]]; (split; [exact I1|]); [now left|right].
+    apply pub0_spec. eauto.
+Qed.
+
+Lemma walk_nodes : forall ns, nodes_ok ns -> forall g p,
+  fst (nxt g p 0) = next_at 0 ns ->
+  (forall k h, In (k, h) ns -> nxt g (pre_node k) = nxt (link_all ns g_empty) (pre_node k)) ->
+  walk g p (map (fun kh => pre_node (fst kh)) ns).
+Proof.
+  induction ns as [|[k h] r IH]; intros Hok g p Hp Hn; cbn [map walk next_at] in *; [exact Hp|].
+  destruct Hok as (Hk & Hh & Hlt & Hr). cbn [fst].
+  assert (E0 : Nat.ltb 0 h = true) by (apply Nat.ltb_lt; lia). rewrite E0 in Hp.
+  split; [exact Hp|]. split; [unfold pre_node, node_id, mk_node, null; lia|].
+  apply IH; [exact Hr| |].
+  - rewrite (Hn k h (or_introl eq_refl)). cbn [link_all nxt]. rewrite Nat.eqb_refl, E0. reflexivity.
+  - intros k' h' Hin. rewrite (Hn k' h' (or_intror Hin)). cbn [link_all nxt].
+    destruct (Nat.eqb_spec (pre_node k') (pre_node k)) as [E|_]; [|reflexivity].
+    apply pre_node_inj in E. rewrite Forall_forall in Hlt. specialize (Hlt _ Hin). cbn [fst] in Hlt. lia.
+Qed.
+
+Lemma zmem_cons x y S : zmem x (y :: S) = (Z.eqb x y || zmem x S)%bool.
+Proof. reflexivity. Qed.
+
+Lemma prefill_run : forall ns (S : list Z) (st : nat -> status SetSpec), nodes_ok ns -> st 90%nat = @Idle SetSpec ->
+  (forall k h, In (k, h) ns -> zmem (Z.of_nat k) S = false) ->
+  exists S' st', @lp_run SetSpec (S, st) (prefill_atr ns) = Some (S', st') /\ (forall u, st' u = st u) /\
+    (forall x, zmem x S' = true <-> zmem x S = true \/ exists k h, In (k, h) ns /\ x = Z.of_nat k).
+Proof.
+  induction ns as [|[k h] r IH]; intros S st Hok Hst Hnew.
+  - exists S, st. split; [reflexivity|]. split; [reflexivity|]. intros x. split; [now left|intros [H|(k & h & [] & _)]; exact H].
+  - destruct Hok as (Hk & Hh & Hlt & Hr).
+    change (prefill_atr ((k, h) :: r)) with ([@AInv SetSpec 90%nat (SInsert (Z.of_nat k)); @ALin SetSpec 90%nat; @ARes SetSpec 90%nat (RBool true)] ++ prefill_atr r).
+    cbn [app lp_run lp_step fst]. rewrite Hst. cbn [lp_step upd Nat.eqb].
+    assert (E : sstep SetSpec S (SInsert (Z.of_nat k)) = (Z.of_nat k :: S, RBool true)).
+    { change (sstep SetSpec S (SInsert (Z.of_nat k))) with (set_step S (SInsert (Z.of_nat k))). cbn [set_step].
+      now rewrite (Hnew k h (or_introl eq_refl)). }
+    rewrite E. cbn [fst snd]. change (res_eqb SetSpec (RBool true) (RBool true)) with true. cbv iota.
+    set (st1 := upd _ 90%nat (@Idle SetSpec)).
+    destruct (IH (Z.of_nat k :: S) st1 Hr) as (S' & st' & R1 & R2 & R3).
+    + unfold st1, upd. now rewrite Nat.eqb_refl.
+    + intros k' h' Hin. rewrite zmem_cons, (Hnew k' h' (or_intror Hin)), orb_false_r.
+      rewrite Forall_forall in Hlt. specialize (Hlt _ Hin). cbn [fst] in Hlt. apply Z.eqb_neq. lia.
+    + exists S', st'. split; [|split].
+      * exact R1.
+      * intros u. rewrite R2. unfold st1, upd. destruct (Nat.eqb_spec u 90); [subst; now rewrite Hst|reflexivity].
+      * intros x. rewrite R3, zmem_cons, orb_true_iff, Z.eqb_eq. split.
+        -- intros [[->|H]|(k' & h' & Hin & ->)]; [right; exists k, h; split; [now left|reflexivity]|now left|right; exists k', h'; split; [now right|reflexivity]].
+        -- intros [H|(k' & h' & [E'|Hin] & ->)]; [left; now right|inversion E'; left; now left|right; eauto].
+Qed.
+
+Lemma prefill_erase ns : erase (prefill_atr ns) = prefill_history ns.
+Proof.
+  induction ns as [|[k h] r IH]; [reflexivity|].
+  change (prefill_atr ((k, h) :: r)) with ([@AInv SetSpec 90%nat (SInsert (Z.of_nat k)); @ALin SetSpec 90%nat; @ARes SetSpec 90%nat (RBool true)] ++ prefill_atr r).
+  change (prefill_history ((k, h) :: r)) with ([@HInv SetSpec 90%nat (SInsert (Z.of_nat k)); @HRes SetSpec 90%nat (RBool true)] ++ prefill_history r).
+  cbn [app erase]. now rewrite IH.
+Qed.
+
+Lemma init_IS : nodes_ok nodes -> IS (init nodes) aux0.
+Proof.
+  intros Hok. destruct (init_ok_state nodes Hok) as [HI HB]. constructor; cbn [apub aL aux0].
+  - exact HI.
+  - exact HB.
+  - apply walk_nodes; [exact Hok|reflexivity|]. intros k h Hin. unfold init. cbn [nxt].
+    destruct (Nat.eqb_spec (pre_node k) head) as [E|_]; [exfalso; eapply pre_node_not_head; eauto|reflexivity].
+  - intros n Hin. unfold L0 in Hin. apply in_map_iff in Hin. destruct Hin as ([k h] & <- & Hin). apply pub0_spec. eauto.
+  - intros n Hp. apply pub0_spec in Hp. destruct Hp as (k & h & _ & ->). apply mk_node_isnode.
+  - intros n l. apply init_cell.
+  - intros n Hp _. apply pub0_spec in Hp. destruct Hp as (k & h & Hin & ->). unfold L0. apply in_map_iff. exists (k, h). auto.
+  - apply init_cell.
+  - intros t. unfold view. cbn [aviews aux0]. split; [constructor|]. split; [constructor|]. split; [exact Logic.I|].
+    intros n Hn Ho Hs. split; [|intros v; discriminate].
+    destruct (pub0 n) eqn:Ep; [|reflexivity]. exfalso. apply pub0_spec in Ep. destruct Ep as (k & h & Hin & ->).
+    destruct (nodes_ok_in _ _ _ Hok Hin) as [Hk _]. unfold pre_node in *.
+    rewrite node_id_owner in Ho by lia. rewrite node_id_ser in Hs by lia. subst t. cbn [views0 vser Nat.eqb] in Hs. lia.
+Qed.
+
+Lemma init_IL : nodes_ok nodes -> IL nodes (init nodes) aux0 [].
+Proof.
+  intros Hok. constructor; cbn [aatr aL aux0].
+  - destruct (prefill_run nodes [] (fun _ => @Idle SetSpec) Hok eq_refl) as (S' & st' & R1 & R2 & R3); [intros; reflexivity|].
+    exists S', st'. split; [exact R1|]. split; [intros t; rewrite R2; reflexivity|].
+    intros x. rewrite R3. split.
+    + intros [H|(k & h & Hin & ->)]; [discriminate|]. exists (pre_node k). split; [unfold L0; apply in_map_iff; exists (k, h); auto|].
+      split; [apply init_cell|]. apply pre_node_key. apply (nodes_ok_in _ _ _ Hok Hin).
+    + intros (n & Hin & _ & Hkey). right. unfold L0 in Hin. apply in_map_iff in Hin. destruct Hin as ([k h] & <- & Hin). cbn [fst] in *.
+      exists k, h. split; [exact Hin|]. rewrite pre_node_key in Hkey by apply (nodes_ok_in _ _ _ Hok Hin). auto.
+  - apply prefill_erase.
+Qed.
+
+Lemma nth_error_combine {A B} : forall (l1 : list A) (l2 : list B) n a b,
+  nth_error (combine l1 l2) n = Some (a, b) -> nth_error l1 n = Some a /\ nth_error l2 n = Some b.
+Proof.
+  induction l1 as [|x l1 IH]; intros l2 n a b H; [destruct n; discriminate|].
+  destruct l2 as [|y l2]; [destruct n; discriminate|]. destruct n as [|n]; cbn in *; [inversion H; auto|now apply IH].
+Qed.
+
+Lemma nth_error_seq0 n t t' : nth_error (seq 0 n) t = Some t' -> t' = t /\ (t < n)%nat.
+Proof.
+  intros H. assert (Hl : (t < n)%nat) by (rewrite <- (seq_length n 0); apply nth_error_Some; congruence).
+  split; [|exact Hl]. apply (nth_error_nth _ _ 0%nat) in H. rewrite seq_nth in H by exact Hl. lia.
+Qed.
+
+Lemma init_cfg_okL fuel ths :
+  nodes_ok nodes -> Forall (Forall op_ok') ths -> (List.length ths <= 63)%nat ->
+  @Conc.cfg_ok G V ev aux lview view (Inv nodes) (init_cfg fuel nodes ths).
+Proof.
+  intros Hn Ho Hlen. exists aux0. split; [split; [now apply init_IS|left; now apply init_IL]|].
+  intros t p Hp. unfold init_cfg in Hp. cbn [Conc.threads] in Hp. rewrite nth_error_map in Hp.
+  destruct (nth_error (combine (seq 0 (List.length ths)) ths) t) as [[t' os]|] eqn:E; [|discriminate].
+  injection Hp as <-. cbn [fst snd]. apply nth_error_combine in E. destruct E as [E1 E2].
+  apply nth_error_seq0 in E1. destruct E1 as [-> Hlt].
+  apply T_thread; [lia| | |reflexivity].
+  - apply nth_error_In in E2. rewrite Forall_forall in Ho. now apply Ho.
+  - unfold view. cbn [aviews aux0 views0 vser]. destruct (Nat.eqb_spec t 63); [lia|reflexivity].
+Qed.
+
 End WithNodes.
+
+(** ** the theorem: for EVERY schedule, the update history of the trace is linearizable w.r.t. the sequential set;
+    the linearization points are the level-0 link CAS and the level-0 mark CAS *)
+Theorem skip_updates_linearizable fuel nodes ths c :
+  nodes_ok nodes -> Forall (Forall op_ok') ths -> (List.length ths <= 63)%nat ->
+  Conc.reach (init_cfg fuel nodes ths) c -> ~ exhausted (Conc.trace c) ->
+  linearizable SetSpec (upd_hist nodes (Conc.trace c)).
+Proof.
+  intros Hn Ho Hlen Hr Hne. destruct (Conc.reach_Inv (init_cfg_okL nodes fuel ths Hn Ho Hlen) Hr) as (a & Hs & [Hil|He]); [|contradiction].
+  destruct Hil as [(S & st & H1 & _) H4]. rewrite <- H4. apply lp_valid_linearizable. exists (S, st). exact H1.
+Qed.
+
+(** at every reachable state the abstract set of the annotated trace is the set of unmarked keys of the level-0 chain,
+    and the chain is in strictly increasing key order *)
+Theorem skip_abstraction fuel nodes ths c :
+  nodes_ok nodes -> Forall (Forall op_ok') ths -> (List.length ths <= 63)%nat ->
+  Conc.reach (init_cfg fuel nodes ths) c -> ~ exhausted (Conc.trace c) ->
+  exists L atr S st, walk (Conc.shared c) head L /\ lp_run lp_init atr = Some (S, st) /\ erase atr = upd_hist nodes (Conc.trace c) /\
+    (forall k, zmem k S = true <-> exists n, In n L /\ snd (nxt (Conc.shared c) n 0) = false /\ key_of n = k).
+Proof.
+  intros Hn Ho Hlen Hr Hne. destruct (Conc.reach_Inv (init_cfg_okL nodes fuel ths Hn Ho Hlen) Hr) as (a & Hs & [Hil|He]); [|contradiction].
+  destruct Hil as [(S & st & H1 & _ & H3) H4]. exists (aL a), (aatr a), S, st. split; [apply (s_walk _ _ Hs)|]. auto.
+Qed.
+
+(** ** the runs executed by the step-correspondence check ([run_case]) *)
+Definition noext (o : op) : bool := match o with OExtMin | OExtMax => false | _ => true end.
+Definition exhaustedb (tr : list (nat * ev)) : bool :=
+  existsb (fun te => match snd te with EvCli n [] => String.eqb n "outoffuel"%string | _ => false end) tr.
+
+Lemma exhaustedb_false tr : exhaustedb tr = false -> ~ exhausted tr.
+Proof.
+  intros H (t & Hin). assert (X : exhaustedb tr = true); [|congruence].
+  unfold exhaustedb. apply existsb_exists. exists (t, EvCli "outoffuel"%string []). split; [exact Hin|reflexivity].
+Qed.
+
+Lemma op_ok'_of o : op_ok o -> noext o = true -> op_ok' o.
+Proof. destruct o; cbn; auto; discriminate. Qed.
+
+Theorem run_case_updates_linearizable cfg ths sched fuel :
+  forallb (fun os => forallb noext os) (map decode_ops ths) = true -> (List.length ths <= 63)%nat ->
+  exhaustedb (fst (run_case cfg ths sched fuel)) = false ->
+  linearizable SetSpec (upd_hist (prefill_nodes cfg) (fst (run_case cfg ths sched fuel))).
+Proof.
+  intros Hne Hlen Hex. unfold run_case in *. cbn [fst] in *.
+  apply (skip_updates_linearizable 60 (prefill_nodes cfg) (map decode_ops ths)); [apply prefill_nodes_ok| |now rewrite map_length|apply Conc.run_reach|now apply exhaustedb_false].
+  apply Forall_forall. intros os Hin. rewrite forallb_forall in Hne. specialize (Hne _ Hin). rewrite forallb_forall in Hne.
+  apply in_map_iff in Hin. destruct Hin as (x & <- & _). pose proof (decode_ops_ok x) as Hok. rewrite Forall_forall in *.
+  intros o Ho. apply op_ok'_of; auto.
+Qed.
+
+(** ** upper levels and level 0: every node linked at ANY level that is not logically deleted (level-0 cell unmarked) is on
+    the level-0 list — for every schedule, also after an out-of-fuel event *)
+Lemma chain_in_link g l : forall n p q, In q (chain g l p n) -> exists p', fst (nxt g p' l) = q /\ q <> null.
+Proof.
+  induction n as [|n IH]; intros p q H; cbn [chain] in H; [contradiction|]. cbv zeta in H.
+  destruct (Nat.eqb_spec (fst (nxt g p l)) null) as [E|E]; [contradiction|]. destruct H as [<-|H]; [exists p; auto|eauto].
+Qed.
+
+Lemma walk_chain g : forall L p, walk g p L -> chain g 0 p (List.length L) = L.
+Proof.
+  induction L as [|n r IH]; intros p H; cbn [walk List.length chain] in *; [reflexivity|]. destruct H as (H1 & H2 & H3). cbv zeta.
+  rewrite H1. destruct (Nat.eqb_spec n null) as [E|_]; [contradiction|]. now rewrite (IH n H3).
+Qed.
+
+Theorem skip_live_linked_nodes_on_level0 fuel nodes ths c l n q :
+  nodes_ok nodes -> Forall (Forall op_ok') ths -> (List.length ths <= 63)%nat ->
+  Conc.reach (init_cfg fuel nodes ths) c ->
+  In q (chain (Conc.shared c) l head n) -> snd (nxt (Conc.shared c) q 0) = false ->
+  exists m, In q (chain (Conc.shared c) 0 head m).
+Proof.
+  intros Hn Ho Hlen Hr Hin Hm. destruct (Conc.reach_Inv (init_cfg_okL nodes fuel ths Hn Ho Hlen) Hr) as (a & Hs & _).
+  destruct (chain_in_link _ _ _ _ _ Hin) as (p' & E & Nq).
+  destruct (s_closed _ _ Hs p' l) as [X|X]; [congruence|]. rewrite E in X.
+  exists (List.length (aL a)). rewrite (walk_chain _ _ _ (s_walk _ _ Hs)). now apply (s_inL _ _ Hs).
+Qed.
